@@ -37,50 +37,50 @@ pub fn campaign(id: &str) -> Option<(TowerCampaign, u32, u32, &'static str)> {
     Some(match id {
         "C01" => (
             TowerCampaign { id: "C01", profile: Profile::Breach, max_ops: 40, nontrivial: |s, _| s.obligations > 0 },
-            400,
-            8000,
+            1500,
+            12000,
             "histories from profile `breach` (1-4 users, 1-5 channels, <=40 ops: register/add/get/broadcast/mine/reorg/poll/policy/restart) run on the real tower and on the reference model; non-trivial = at least one obligation (a held appointment whose locator matched a transaction in a processed block or in the six-block window at acceptance); distinct = distinct (class vector, obligation bucket, rpc bucket)",
         ),
         "C02" => (
             TowerCampaign { id: "C02", profile: Profile::Breach, max_ops: 40, nontrivial: |_, r| r.counters.iter().any(|(k, v)| k == "rpcs_examined" && *v > 0) },
-            400,
-            8000,
+            1500,
+            12000,
             "same histories as C01 (other seed stream); every sendrawtransaction/getrawtransaction the tower issues is matched against the model's expectations, leftovers must be justified by a held, triggered, decryptable appointment of a present user or a reorged tracker; non-trivial = at least one RPC issued by the tower",
         ),
         "C04" => (
             TowerCampaign { id: "C04", profile: Profile::Chain, max_ops: 60, nontrivial: |s, _| s.completions > 0 || s.reorg_resends > 0 || s.rebroadcasts > 0 || s.reorged_conf > 0 },
-            150,
-            3000,
+            500,
+            5000,
             "histories from profile `chain` (few users, many mine/reorg/poll, growth up to 120 blocks per op, reorgs up to depth 12); tracker state machine of the model vs trackers table and RPC log after every poll; non-trivial = a completion, a reorg of a confirming block, or a stale rebroadcast happened",
         ),
         "C06" => (
             TowerCampaign { id: "C06", profile: Profile::Auth, max_ops: 40, nontrivial: |s, _| s.auth_rejections > 0 || s.multi_user_locator > 0 },
-            400,
-            8000,
+            1500,
+            12000,
             "histories from profile `auth`: half of all requests carry a signature that is valid for another message / by another user / by an unregistered key / truncated / extended / one symbol changed / not zbase32 / empty / upper-cased; oracle = independent public-key recovery + membership; refused requests must leave the database byte-identical; non-trivial = at least one refused authentication or two users triggered on one locator",
         ),
         "C07" => (
             TowerCampaign { id: "C07", profile: Profile::Slots, max_ops: 45, nontrivial: |s, _| s.updates_cross_slot > 0 || s.invalid_drops + s.rejected_drops + s.completions > 0 },
-            300,
-            6000,
+            1200,
+            10000,
             "histories from profile `slots` (blob lengths on both sides of every 2048 boundary, small slot budgets); after every op: wire reply = private get_user (memory) = users table (disk) = model balance; conservation granted = available + held + forfeited is kept by the model; non-trivial = an update across a slot boundary, a drop (invalid/rejected) or a refund",
         ),
         "C08" => (
             TowerCampaign { id: "C08", profile: Profile::Receipts, max_ops: 40, nontrivial: |s, _| s.renewals > 0 || s.updates > 0 || s.trig_accept > 0 },
-            400,
-            8000,
+            1500,
+            12000,
             "histories from profile `breach`; every register/add reply is verified with the client's own receipt verifiers, start_block against the model height, slots/expiry against the users table, and every held appointment is read back byte-for-byte after every operation; non-trivial = a renewal, an update, or an acceptance-time trigger",
         ),
         "C09" => (
             TowerCampaign { id: "C09", profile: Profile::Expiry, max_ops: 45, nontrivial: |s, _| s.expired_rejections > 0 || s.purges > 0 || s.renewals > 0 },
-            400,
-            8000,
+            1500,
+            12000,
             "histories from profile `expiry`: (slots,duration,grace) drawn from {0,1,2,3,5,10,50}^3, polls of 1-5 blocks, reorgs up to depth 6 across expiry and purge heights; model = height comparisons of the statement; non-trivial = a request refused for expiry, a purge, or a renewal",
         ),
         "C11H" => (
             TowerCampaign { id: "C11", profile: Profile::Lifecycle, max_ops: 50, nontrivial: |s, _| s.already_triggered + s.retriggers + s.updates > 0 },
-            300,
-            6000,
+            1200,
+            10000,
             "lifecycle histories: resubmission of appointments in every lifecycle state with every node verdict; verdict = a panic (hook) in a handler or in chain processing",
         ),
         _ => return None,
